@@ -336,6 +336,21 @@ func init() {
 					id := idOf(g.do("zerorow"))
 					g.do(fmt.Sprintf("addrow %s R%d", t, id))
 					rt.rows = append(rt.rows, &refRow{id: id, nil_: true})
+				case k == 9 && (c%5 == 2 || r.chance(1, 3)):
+					// a cell offered to a row that cannot hold cells (a separator, a zero-value row): refused,
+					// so nothing about the table changes — in particular no column appears
+					var no []int
+					for _, rr := range rt.rows {
+						if rr.sep || rr.nil_ {
+							no = append(no, rr.id)
+						}
+					}
+					if len(no) == 0 {
+						id := idOf(g.do("addsep " + t))
+						rt.rows = append(rt.rows, &refRow{id: id, sep: true})
+						no = append(no, id)
+					}
+					g.do(fmt.Sprintf("rowadd R%d %s", no[r.n(len(no))], items[r.n(len(items))]))
 				default:
 					if len(known) == 0 {
 						continue
@@ -913,6 +928,7 @@ func init() {
 				}
 				return res
 			}
+			forceWhen, forceTarget := "", ""
 			register := func(owner string) {
 				nreg++
 				when, target := whens[(c+nreg)%4], targets[(c/4+nreg)%3]
@@ -924,6 +940,9 @@ func init() {
 				}
 				if r.chance(1, 25) {
 					when = "bad"
+				}
+				if forceWhen != "" {
+					when, target = forceWhen, forceTarget
 				}
 				cb := fmt.Sprintf("log:%d", nreg)
 				if r.chance(1, 3) {
@@ -964,7 +983,16 @@ func init() {
 					// a row the table makes and attaches itself, filled afterwards
 					nr := do("appendnewrow " + t)
 					rows = append(rows, nr)
-					if r.chance(2, 3) {
+					if c%6 == 4 || r.chance(1, 3) {
+						// a row that is already in the table gets its cell callbacks now: cells added to it
+						// from here on are handed to them
+						if c%6 == 4 {
+							forceWhen, forceTarget = "add", "cell"
+						}
+						register("r:" + nr[1:])
+						forceWhen, forceTarget = "", ""
+					}
+					if c%6 == 4 || r.chance(2, 3) {
 						do("rowadd " + nr + " " + item)
 					}
 				} else {
@@ -1021,6 +1049,13 @@ func init() {
 			if r.chance(1, 3) {
 				late := do("addrowitems " + t + " " + mk(r.n(ncols+1)))
 				rows = append(rows, late)
+				if r.chance(1, 2) {
+					if r.chance(1, 2) {
+						forceWhen, forceTarget = "add", "cell"
+					}
+					register("r:" + late[1:])
+					forceWhen, forceTarget = "", ""
+				}
 				do("rowadd " + late + " " + item)
 			}
 			// the object handed to a callback is the live one: what a set-property callback wrote is
